@@ -15,11 +15,12 @@ var Vocab = []string{
 	"#", "$", "@", "<", ">", "*", "{", "}",
 	"+", "-", "/", "%", "(", ")", ",", ":", "==", "<=", ">=", "&&", "||", "!=", "!", "=", "&", "|",
 	"a", "b", "x", "i", "start", "loop", "L0", "L1", "E0", "E1", "CORESIZE", "MAXLENGTH", "MAXPROCESSES", "MINDISTANCE", "CURLINE",
+	"\u0663", "\uff11\uff12", "0\u0663", "1\u0663", "\u0663x", "x\u0663", "\u00b2", "\u2160",
 	"0", "1", "2", "3", "7", "10", "100", "007", "8000", "2147483647", "2147483648", "9223372036854775808", "123456789012345678901234567890",
 	"\n", "\n", "\n", "\n", " ", "\t", "\r\n",
 }
 
-var hostileBytes = []string{";", ";", " ; x", ",", ":", "\n", "\x00", "\x1a", "\xff", "\xc3", "\r", "\r\n", "\v", "\f", " ", " ", "é", "λ", "\x7f", "\\", "\"", "'", "`", "~", "^", "?", "[", "]"}
+var hostileBytes = []string{"\u0663", "\uff11", "0\u0663", "\u212a", "\u0130", ";", ";", " ; x", ",", ":", "\n", "\x00", "\x1a", "\xff", "\xc3", "\r", "\r\n", "\v", "\f", " ", " ", "é", "λ", "\x7f", "\\", "\"", "'", "`", "~", "^", "?", "[", "]"}
 
 func splitTokens(s string) []string {
 	// split into runs of word characters, single punctuation, and whitespace runs (kept)
